@@ -563,4 +563,258 @@ mod verif_in_context {
     step_msg!(step_msg_publish_q0, 6);
     step_msg!(step_msg_disconnect, 7);
     step_msg!(step_msg_subscribe, 8);
+
+    // ------------------------------------------------------------------ probes: handle_packet
+    fn fresh_state(r: u16, q: u16) -> (Connection, Session) {
+        (
+            Connection { disconnection_timestamp: None, session_expiry_interval: 0, remote_receive_maximum: r, remote_max_packet_size: None, send_quota: q },
+            Session { awaiting_ack: VecDeque::new(), subscriptions: VecDeque::new(), retrasmit_queue: VecDeque::new() },
+        )
+    }
+
+    //@ h name=probe_pkt_pubrel props=C08 tier=off cap=small to=1200 mem=14
+    //@ claim: experiment
+    #[kani::proof]
+    #[kani::unwind(8)]
+    pub(crate) fn probe_pkt_pubrel() {
+        let mut cx = task_cx();
+        let mut tx = TxPacketStream::from(VecTx::new());
+        let (mut connection, mut session) = fresh_state(10, 5);
+        let id: u16 = kani::any();
+        kani::assume(id != 0);
+        let pkt = RxPacket::Pubrel(ack_rx(id));
+        {
+            let mut f = core::pin::pin!(CtxV::handle_packet(&mut tx, &mut connection, &mut session, pkt));
+            match core::future::Future::poll(f.as_mut(), &mut cx) {
+                core::task::Poll::Ready(Ok(())) => {}
+                _ => panic!("step must complete"),
+            }
+        }
+        assert!(out_n() == 4 && out(0) == 0x70 && out(1) == 2 && out(2) == (id >> 8) as u8 && out(3) == id as u8, "PUBCOMP with the PUBREL's identifier");
+        kani::cover!(id == 0x0100, "id 256");
+        core::mem::forget(session);
+    }
+
+    //@ h name=probe_pkt_puback_empty props=C10 tier=off cap=small to=1200 mem=14
+    //@ claim: experiment
+    #[kani::proof]
+    #[kani::unwind(8)]
+    pub(crate) fn probe_pkt_puback_empty() {
+        let mut cx = task_cx();
+        let mut tx = TxPacketStream::from(VecTx::new());
+        let r: u16 = kani::any();
+        let q: u16 = kani::any();
+        kani::assume(r >= 1 && q <= r);
+        let (mut connection, mut session) = fresh_state(r, q);
+        let pkt = RxPacket::Puback(ack_rx(7));
+        {
+            let mut f = core::pin::pin!(CtxV::handle_packet(&mut tx, &mut connection, &mut session, pkt));
+            match core::future::Future::poll(f.as_mut(), &mut cx) {
+                core::task::Poll::Ready(Ok(())) => {}
+                _ => panic!("step must complete"),
+            }
+        }
+        assert!(connection.send_quota == if q < r { q + 1 } else { r });
+        kani::cover!(q == r, "full");
+        core::mem::forget(session);
+    }
+
+    //@ h name=probe_pkt_disconnect props=C13 tier=off cap=small to=1200 mem=14
+    //@ claim: experiment
+    #[kani::proof]
+    #[kani::unwind(8)]
+    pub(crate) fn probe_pkt_disconnect() {
+        let mut cx = task_cx();
+        let mut tx = TxPacketStream::from(VecTx::new());
+        let (mut connection, mut session) = fresh_state(10, 5);
+        let normal: bool = kani::any();
+        let pkt = RxPacket::Disconnect(DisconnectRx {
+            reason: if normal { DisconnectReason::Success } else { DisconnectReason::ServerBusy },
+            session_expiry_interval: SessionExpiryInterval::default(),
+            reason_string: None,
+            server_reference: None,
+            user_property: UserProperties::new(),
+        });
+        let res = {
+            let mut f = core::pin::pin!(CtxV::handle_packet(&mut tx, &mut connection, &mut session, pkt));
+            match core::future::Future::poll(f.as_mut(), &mut cx) {
+                core::task::Poll::Ready(x) => x,
+                _ => panic!("step must complete"),
+            }
+        };
+        assert!(res.is_ok() == normal);
+        kani::cover!(normal, "normal");
+        core::mem::forget(res);
+        core::mem::forget(session);
+    }
+
+    //@ h name=probe_pkt_pubrel_c props=C08 tier=off cap=heap to=900 mem=20
+    //@ claim: experiment
+    #[kani::proof]
+    #[kani::unwind(5)]
+    pub(crate) fn probe_pkt_pubrel_c() {
+        let mut cx = task_cx();
+        let mut tx = TxPacketStream::from(VecTx::new());
+        let (mut connection, mut session) = fresh_state(10, 5);
+        let id: u16 = 0x0102;
+        let pkt = RxPacket::Pubrel(ack_rx(id));
+        {
+            let mut f = core::pin::pin!(CtxV::handle_packet(&mut tx, &mut connection, &mut session, pkt));
+            match core::future::Future::poll(f.as_mut(), &mut cx) {
+                core::task::Poll::Ready(Ok(())) => {}
+                _ => panic!("step must complete"),
+            }
+        }
+        assert!(out_n() == 4 && out(0) == 0x70 && out(1) == 2 && out(2) == (id >> 8) as u8 && out(3) == id as u8, "PUBCOMP with the PUBREL's identifier");
+        kani::cover!(out_n() == 4, "four");
+        core::mem::forget(session);
+    }
+
+    //@ h name=probe_ack_direct props=C08 tier=off cap=small to=1200 mem=14
+    //@ claim: experiment
+    #[kani::proof]
+    #[kani::unwind(8)]
+    pub(crate) fn probe_ack_direct() {
+        let mut cx = task_cx();
+        let mut tx = TxPacketStream::from(VecTx::new());
+        let id: u16 = kani::any();
+        kani::assume(id != 0);
+        {
+            let mut f = core::pin::pin!(CtxV::ack::<PubcompReason>(&mut tx, nz16(id)));
+            match core::future::Future::poll(f.as_mut(), &mut cx) {
+                core::task::Poll::Ready(Ok(())) => {}
+                _ => panic!("step must complete"),
+            }
+        }
+        assert!(out_n() == 4 && out(0) == 0x70 && out(1) == 2 && out(2) == (id >> 8) as u8 && out(3) == id as u8, "PUBCOMP with the PUBREL's identifier");
+        kani::cover!(id == 0x0100, "id 256");
+    }
+
+    async fn outer_ack(tx: &mut TxPacketStream<VecTx>, id: u16) -> Result<(), MqttError> {
+        Box::pin(CtxV::ack::<PubcompReason>(tx, nz16(id))).await?;
+        Ok(())
+    }
+    pub(crate) async fn write_stub<T: AsyncWrite + Unpin>(_this: &mut TxPacketStream<T>, packet: &[u8]) -> Result<(), std::io::Error> {
+        let mut i = 0;
+        while i < packet.len() {
+            let k = OUT_N.load(Ordering::Relaxed);
+            assert!(k < 16, "verif bound: mock writer capacity");
+            OUT[k].store(packet[i], Ordering::Relaxed);
+            OUT_N.store(k + 1, Ordering::Relaxed);
+            i += 1;
+        }
+        Ok(())
+    }
+    //@ h name=probe_ack_nested props=C08 tier=off cap=heap to=900 mem=20
+    //@ claim: experiment
+    #[kani::proof]
+    #[kani::unwind(8)]
+    pub(crate) fn probe_ack_nested() {
+        let mut cx = task_cx();
+        let mut tx = TxPacketStream::from(VecTx::new());
+        let id: u16 = kani::any();
+        kani::assume(id != 0);
+        {
+            let mut f = core::pin::pin!(outer_ack(&mut tx, id));
+            match core::future::Future::poll(f.as_mut(), &mut cx) {
+                core::task::Poll::Ready(Ok(())) => {}
+                _ => panic!("step must complete"),
+            }
+        }
+        assert!(out_n() == 4 && out(0) == 0x70 && out(1) == 2 && out(2) == (id >> 8) as u8 && out(3) == id as u8, "PUBCOMP with the PUBREL's identifier");
+        kani::cover!(id == 0x0100, "id 256");
+    }
+
+    async fn d3(tx: &mut TxPacketStream<VecTx>, id: u16) -> Result<(), MqttError> {
+        let b = [0x70u8, 2, (id >> 8) as u8, id as u8];
+        tx.write(&b).await?;
+        Ok(())
+    }
+    async fn d4(tx: &mut TxPacketStream<VecTx>, id: u16) -> Result<(), MqttError> {
+        d3(tx, id).await?;
+        Ok(())
+    }
+    async fn d5(tx: &mut TxPacketStream<VecTx>, id: u16) -> Result<(), MqttError> {
+        d4(tx, id).await?;
+        Ok(())
+    }
+    macro_rules! probe_depth {
+        ($name:ident, $f:ident) => {
+            #[kani::proof]
+            #[kani::unwind(8)]
+            pub(crate) fn $name() {
+                let mut cx = task_cx();
+                let mut tx = TxPacketStream::from(VecTx::new());
+                let id: u16 = kani::any();
+                kani::assume(id != 0);
+                {
+                    let mut f = core::pin::pin!($f(&mut tx, id));
+                    match core::future::Future::poll(f.as_mut(), &mut cx) {
+                        core::task::Poll::Ready(Ok(())) => {}
+                        _ => panic!("step must complete"),
+                    }
+                }
+                assert!(out_n() == 4 && out(0) == 0x70 && out(1) == 2 && out(2) == (id >> 8) as u8 && out(3) == id as u8, "bytes");
+                kani::cover!(id == 0x0100, "id 256");
+            }
+        };
+    }
+    //@ h name=probe_d3 props=C08 tier=off cap=small to=600 mem=12
+    //@ h name=probe_d4 props=C08 tier=off cap=small to=600 mem=12
+    //@ h name=probe_d5 props=C08 tier=off cap=small to=600 mem=12
+    //@ claim: experiment
+    probe_depth!(probe_d3, d3);
+    probe_depth!(probe_d4, d4);
+    probe_depth!(probe_d5, d5);
+
+    // does a value kept in a nested coroutine's state stay a constant for symex?
+    async fn e_inner(tx: &mut TxPacketStream<VecTx>, n: usize) -> Result<(), MqttError> {
+        let v = [n, n + 1];
+        tx.write(&[1u8]).await?;
+        let mut i = 0;
+        while i < v[0] {
+            tx.write(&[2u8]).await?;
+            i += 1;
+        }
+        Ok(())
+    }
+    async fn e_outer(tx: &mut TxPacketStream<VecTx>, n: usize) -> Result<(), MqttError> {
+        e_inner(tx, n).await?;
+        Ok(())
+    }
+    //@ h name=probe_nested_const props=C08 tier=off cap=small to=600 mem=12
+    //@ claim: experiment
+    #[kani::proof]
+    #[kani::unwind(8)]
+    pub(crate) fn probe_nested_const() {
+        let mut cx = task_cx();
+        let mut tx = TxPacketStream::from(VecTx::new());
+        {
+            let mut f = core::pin::pin!(e_outer(&mut tx, 2));
+            match core::future::Future::poll(f.as_mut(), &mut cx) {
+                core::task::Poll::Ready(Ok(())) => {}
+                _ => panic!("step must complete"),
+            }
+        }
+        assert!(out_n() == 3);
+        kani::cover!(out_n() == 3, "three");
+    }
+
+    //@ h name=probe_top_const props=C08 tier=off cap=small to=600 mem=12
+    //@ claim: experiment
+    #[kani::proof]
+    #[kani::unwind(8)]
+    pub(crate) fn probe_top_const() {
+        let mut cx = task_cx();
+        let mut tx = TxPacketStream::from(VecTx::new());
+        {
+            let mut f = core::pin::pin!(e_inner(&mut tx, 2));
+            match core::future::Future::poll(f.as_mut(), &mut cx) {
+                core::task::Poll::Ready(Ok(())) => {}
+                _ => panic!("step must complete"),
+            }
+        }
+        assert!(out_n() == 3);
+        kani::cover!(out_n() == 3, "three");
+    }
 }
